@@ -58,6 +58,7 @@ class FuncInfo:
     attrs_written_direct: set = field(default_factory=set)
     self_calls: set = field(default_factory=set)      # methods / properties of the own class family used through self
     all_attrs: bool = False                           # uses getattr/__getattribute__/__setattr__/__dict__ on self
+    all_attrs_w: bool = False                         # ... in a way that may (re)bind attributes
     attrs: list = field(default_factory=list)         # implicit attribute parameters (transitive), sorted
     attrs_written: set = field(default_factory=set)   # transitive
     variants: list = field(default_factory=list)      # e.g. [('inplace', True), ('inplace', False)] or [None]
@@ -175,6 +176,8 @@ class Package:
                 if isinstance(x, ast.Attribute) and isinstance(x.value, ast.Name) and x.value.id == me:
                     if x.attr in ('__getattribute__', '__setattr__', '__dict__', '__getattr__'):
                         fi.all_attrs = True
+                        if x.attr in ('__setattr__', '__dict__'):
+                            fi.all_attrs_w = True
                     else:
                         fi.attrs_direct.add(x.attr)
                         if isinstance(x.ctx, (ast.Store, ast.Del)):
@@ -182,6 +185,8 @@ class Package:
                 if isinstance(x, ast.Call) and isinstance(x.func, ast.Name) and x.func.id in ('getattr', 'setattr', 'vars') \
                         and x.args and isinstance(x.args[0], ast.Name) and x.args[0].id == me:
                     fi.all_attrs = True
+                    if x.func.id != 'getattr':
+                        fi.all_attrs_w = True
                 if isinstance(x, ast.AugAssign) and isinstance(x.target, ast.Attribute) and isinstance(x.target.value, ast.Name) \
                         and x.target.value.id == me:
                     fi.attrs_written_direct.add(x.target.attr)
@@ -305,7 +310,7 @@ class Package:
                 direct |= c.attr_universe
             f.self_calls = {a for a in f.attrs_direct if a in c.method_names}
             wr = {a for a in f.attrs_written_direct if a in c.attr_universe}
-            if f.all_attrs:
+            if f.all_attrs_w:
                 wr |= c.attr_universe
             state[f.qual] = [set(direct), set(wr)]
         while changed:
@@ -363,6 +368,7 @@ class FX:
         self.block = []
         self.local_syms = {}
         self.notes = []
+        self.nf_direct = set()
         self.me = f.params[0] if (f.cls is not None and f.kind in ('method', 'property') and f.params) else None
         self.cinfo = pkg.classes.get(f.cls) if f.cls else None
         # parameter variables first, in callee order
@@ -422,6 +428,8 @@ class FX:
 
     def bind(self, name, v: Val):
         self.var(name)
+        if self.me and name.startswith(self.me + '.') and v.al:
+            self.nf_direct.add(name.split('.', 1)[1])
         if v.al:
             self.emit('alias', name, sorted(v.al))
         else:
@@ -452,10 +460,15 @@ class FX:
         self._assigned = set()
         body, _ = self.sub(lambda: self.stmts(self.f.node.body))
         prog = [body]
-        wr = [f'{self.me}.{a}' for a in sorted(self.f.attrs_written)] if self.me else []
+        wr = [f'{self.me}.{a}' for a in sorted(self._nf(self.f))] if self.me else []
         if wr:
             prog.append(('alias', '$ret', ['$ret'] + wr))
         return ('seq', prog)
+
+    def _nf(self, m):
+        """attributes m (or a method it calls on self) may bind to something that is not freshly allocated"""
+        nf = getattr(m, 'attrs_nf', None)
+        return set(m.attrs_written) if nf is None else set(nf)
 
     # ---------------------------------------------------------- statements
     def stmts(self, body):
@@ -1008,6 +1021,7 @@ class FX:
                         for a in self.f.attrs:
                             n = f'{self.me}.{a}'
                             self.emit('alias', n, [n] + sorted(v.al))
+                            self.nf_direct.add(a)
                     return SCALAR
                 m = self.pkg.lookup_method(self.f.cls, fn.attr)
                 if m is not None:
@@ -1027,6 +1041,7 @@ class FX:
                     for a in self.f.attrs:
                         n = f'{self.me}.{a}'
                         self.emit('alias', n, [n] + sorted(al))
+                        self.nf_direct.add(a)
                 return SCALAR
             b = self.ev(fn.value)
             if b.kind == 'cls' and b.cls in self.pkg.classes:
@@ -1239,7 +1254,10 @@ class FX:
                                 bound[n] = rest
                             elif n in (m.vararg, m.kwarg):
                                 bound[n] = join_val(bound[n], rest)
-                    argl = [self.as_var(bound[n]) if n in bound else '$none' for n in names]
+                    def scalar_param(n):      # a parameter annotated int/float/bool/str holds no array (same contract as for the callee itself)
+                        a = (getattr(m, 'ann', {}).get(n) or '').replace('Optional[', '').rstrip(']')
+                        return a in TB.SCALAR_ANN
+                    argl = [self.as_var(bound[n]) if (n in bound and not scalar_param(n)) else '$none' for n in names]
                     # implicit attribute parameters
                     me0 = m.params[0] if (m.cls and m.kind in ('method', 'property') and m.params) else None
                     recv = bound.get(me0) if me0 else None
@@ -1276,11 +1294,15 @@ class FX:
             self.block.append(prog[1][0])
         if written_any:
             if receiver is not None and self.me is not None and receiver == self.me:
-                names = set()
+                names, fresh = set(), set()
                 for m in cands:
-                    names |= {f'{self.me}.{a}' for a in m.attrs_written if f'{self.me}.{a}' in self.vars}
+                    nf = self._nf(m)
+                    names |= {f'{self.me}.{a}' for a in nf if f'{self.me}.{a}' in self.vars}
+                    fresh |= {f'{self.me}.{a}' for a in set(m.attrs_written) - nf if f'{self.me}.{a}' in self.vars}
                 for n in sorted(names):
                     self.emit('alias', n, [n, r])
+                for n in sorted(fresh - names):
+                    self.emit('if', ('seq', [('fresh', n)]), ('seq', []))      # the callee may have rebound it to a new array
             else:
                 # the receiver object may now hold what the callee bound to its attributes
                 tgt = receiver_var
